@@ -77,6 +77,9 @@ func vhSnapshotV(symKind, variant int) config.ClusterResources {
 			Spec: metallbv1beta1.IPAddressPoolSpec{Addresses: addrs[i]}}
 		if i < 2 {
 			p.Spec.AllocateTo = &metallbv1beta1.ServiceAllocation{Priority: i + 1, Namespaces: []string{"tenant"}}
+			if variant == 4 {
+				p.Spec.AllocateTo.Priority = 5 // both pools of the namespace carry the same explicit priority
+			}
 		}
 		r.Pools = append(r.Pools, p)
 	}
@@ -142,8 +145,9 @@ func VerifToConfigOrder(symKind, mapOrder, variant int) {
 	b, errB := toConfig(res2, config.DontValidate)
 	vr.MapOrder(vr.OrderInsertion)
 	vr.Assert((errA == nil) == (errB == nil), "acceptance of a snapshot depends on the listing order")
-	vr.Assert(variant == 0 || errA != nil, "an invalid snapshot was accepted")
-	vr.Assert(variant == 0 || errB != nil, "an invalid snapshot was accepted in another listing / iteration order")
+	valid := variant == 0 || variant == 4
+	vr.Assert(valid || errA != nil, "an invalid snapshot was accepted")
+	vr.Assert(valid || errB != nil, "an invalid snapshot was accepted in another listing / iteration order")
 	if errA != nil {
 		vr.Reach("snapshot rejected")
 		return
